@@ -515,7 +515,10 @@ def fill_context(context: Context) -> None:
     """
     if current_options.with_contexts is None:
         # Allow fill_context() to be used outside an extract() call, even
-        # though the hooks it's calling might assume they're inside extract()
+        # though the hooks it's calling might assume they're inside extract().
+        # No extraction has made sure that the glue for recently imported
+        # modules is installed, so do that here: the hooks may come from it.
+        _glue.add_glue_as_needed()
         with current_options.push(with_contexts=True, recurse_child_tasks=False):
             fill_context(context)
         return
